@@ -61,7 +61,22 @@ def h_event(cfg):
         else:
             E.fail(orig_exc)
         if second:
-            yield env.timeout(num('t2'))
+            # a Timeout is triggered from its creation on: it refuses any further trigger as well
+            tmo = env.timeout(num('tq'), value=V)
+            b0 = (tmo._ok, tmo._value)
+            try:
+                if second == 'succeed':
+                    tmo.succeed(V + 1)
+                else:
+                    tmo.fail(Boom(V + 1))
+                fail('c02.second-trigger-raises', 'no RuntimeError for a pending Timeout')
+            except RuntimeError:
+                pass
+            check('c02.second-trigger-changes-nothing', tmo._ok is b0[0] and tmo._value is b0[1], 'timeout')
+            if cfg.get('second_when') != 'same-step':
+                yield env.timeout(num('t2'))        # the first trigger has been processed by now
+            else:
+                cover('second-trigger-before-processing')
             before = (E._ok, E._value, env.peek())
             try:
                 if second == 'succeed':
@@ -272,6 +287,9 @@ def jobs(tier, seed):
             for sec in ('succeed', 'fail'):
                 js.append({'harness': 'event', 'weight': 8,
                            'cfg': {'target': target, 'waiters': [P], 'sorts': 'int', 'second': sec}})
+                # second attempt in the same step as the first trigger (triggered, not yet processed)
+                js.append({'harness': 'event', 'weight': 8,
+                           'cfg': {'target': target, 'waiters': [P, C], 'sorts': 'int', 'second': sec, 'second_when': 'same-step'}})
     for kinds in (['timeout'], ['timeout', 'timeout'], ['event', 'timeout'], ['timeout', 'event', 'timeout']):
         js.append({'harness': 'chain', 'weight': 10, 'cfg': {'n': len(kinds), 'kinds': kinds, 'sorts': 'int'}})
     return js
@@ -284,9 +302,10 @@ META = {
                         'c02.exception-is-a-copy', 'c02.unhandled-failure-raises', 'c02.handled-failure-does-not-raise',
                         'c02.crash-at-failure-instant', 'c02.second-trigger-changes-nothing', 'c02.process-value',
                         'c02.processed-event-continues-at-once', 'c02.chain-value'],
-    'required_covers': ['nontrivial', 'crash', 'handled-failure', 'late-yield', 'second-trigger-refused'],
+    'required_covers': ['nontrivial', 'crash', 'handled-failure', 'late-yield', 'second-trigger-refused',
+                        'second-trigger-before-processing'],
     'bounds': {'quick': 'one shared event or child process; <= 3 waiters (processes catching / not catching, plain callbacks) registering at '
-                        'symbolic instants; second succeed/fail attempt; chains of <= 3 already-processed events; values symbolic Int',
+                        'symbolic instants; second succeed/fail attempt (before and after the first is processed, and on a pending Timeout); chains of <= 3 already-processed events; values symbolic Int',
                'thorough': '<= 4 waiters'},
     'assumptions': ['a plain callback does not handle a failure (only a waiting process does)',
                     'a callback cannot be registered on a processed event (callbacks is None): such registrations are skipped'],
